@@ -30,6 +30,16 @@ CLAIMED = {
             "property-based testing (rapid): reference-model oracle, existential over random choices", "No order is claimed among alternatives that met no level."),
     "C14": ("The four generated level sources as wired in main.go are iterated to exhaustion on generated parameters (dyadic ones landing exactly on the bounds) and compared with the documented series (exact length, thresholds at fraction r of the declared/observed range, strictly monotone, finite, out-of-range rejected); the API level re-uses the C12/C13 oracles on series-only requests so that swapping the increasing/decreasing wiring is caught.",
             "property-based testing (rapid): reference series oracle (component + API)", "Decreasing multiplied series generated with minValue >= 0.01 (length < 5000)."),
+    "C15": ("Exactly one firing omission between two probes: count rule, omitted are distinct declared criteria, restriction of values/result to the kept criteria, decision byte-equal to the decision for the reduced request (kept order from the probe), weakest/strongest against an independently recomputed importance (incl. the Choquet decomposition), and statistical batches over 2000 seeds for the probabilistic orderings; superfluous method-parameter entries generated.",
+            "property-based testing (rapid): metamorphic reduced-problem equivalence + reference importance + statistical batches", "Reduced-request equivalence for aspect elimination only with pairwise distinct weights (as the property states)."),
+    "C16": ("Probed reversal step after 0..2 arbitrary biases: count rule, mirror formula over the declared/observed range of the state received for every known alternative, report == data handed on, everything else (values, criteria list, parameter fingerprint) unchanged, observed range preserved; double reversal with a value-independent selection restores the data.",
+            "property-based testing (rapid): closed-formula oracle on probe snapshots + involution", "Double reversal judged only when both applications select the same criteria."),
+    "C17": ("Probed fatigue step after 0..2 arbitrary biases: ratio formula, interval |v'-v| <= |f v| pushed through the (monotone) bounding function, f=0 identity, criteria/parameters untouched, report == values handed on == method input; run-level aggregate (replayable set of requests) that the seeded sign takes both values and u varies.",
+            "property-based testing (rapid): interval/membership oracle + run-level aggregate", "The library's random stream is not replayed; u and s are judged by membership and by aggregates."),
+    "C18": ("Probed concealment/mixing step (also repeated 2-3 times or after other biases): one appended gain criterion with unused id, all alternatives valued, existing data untouched, method evaluates the new state, new weight a fraction in [0,1) of an existing criterion's weight that also explains the reported range, concealed values in the scaled range through the bounding, mixing components/rescaling/formula; component batches for the three reference-criterion providers.",
+            "property-based testing (rapid): closed-formula and membership oracles on probe snapshots", "'Existing' reference criterion = criterion of the original or the current state."),
+    "C19": ("Probed anchoring step: reference point as coefficient-weighted extreme, scaling, gain/loss mapping split at d > 0, inline formula with bounding and exact new - old report, zero functions identity, not-considered untouched unless asked; newCriterion formula with importance-weighted mean, observed range report, existing values untouched.",
+            "property-based testing (rapid): closed-formula oracle on probe snapshots", "Elements of reported lists are matched by id, never by position. Exponential overflow of the documented formula is outside the numeric domain (skipped, counted)."),
 }
 
 NOT_YET = "check not built yet in this session (work in progress; to be claimed)"
